@@ -232,6 +232,45 @@ vec_harness!(vector_set_persistent, |arg, x| immutable_vector_set(&mut arg, 1, i
     old.set(1, iv(x));
     old
 });
+/// take / drop with a count below, at and beyond the length: same answer whether or not the vector
+/// is shared, never a panic
+fn take_drop_check(shared: bool, n: usize, take: bool) {
+    let g = Gc::new(vec2());
+    let alias = if shared { Some(g.clone()) } else { None };
+    let mut arg = SteelVal::VectorV(SteelVector(g));
+    let r = if take { immutable_vector_take(&mut arg, n) } else { immutable_vector_drop(&mut arg, n) };
+    let m = if n > 2 { 2 } else { n };
+    let expected: Vec<SteelVal> = if take { vec2().e[..m].to_vec() } else { vec2().e[m..].to_vec() };
+    match r {
+        Ok(SteelVal::VectorV(SteelVector(res))) => {
+            assert!(res.e == expected, "the result depends on whether another holder exists");
+            if let Some(a) = &alias {
+                assert!(**a == vec2(), "another holder of the vector observes the update");
+            }
+        }
+        _ => assert!(false),
+    }
+}
+
+#[kani::proof]
+#[kani::unwind(6)]
+fn vector_take_persistent() {
+    take_drop_check(true, 1, true);
+    take_drop_check(false, 1, true);
+    take_drop_check(true, 2, true);
+    take_drop_check(false, 3, true);
+    take_drop_check(true, 3, true);
+}
+
+#[kani::proof]
+#[kani::unwind(6)]
+fn vector_drop_persistent() {
+    take_drop_check(true, 1, false);
+    take_drop_check(false, 1, false);
+    take_drop_check(true, 3, false);
+    take_drop_check(false, 3, false);
+}
+
 #[kani::proof]
 #[kani::unwind(8)]
 fn string_push_persistent() {
